@@ -232,13 +232,16 @@ type c01Stmt struct {
 	Param *int64 `json:"param,omitempty"` // value of the single positional parameter, if the statement has one
 }
 type c01Req struct {
-	Tx    bool      `json:"tx,omitempty"`
-	Stmts []c01Stmt `json:"stmts"`
+	Tx      bool      `json:"tx,omitempty"`
+	Stmts   []c01Stmt `json:"stmts,omitempty"`
+	BadLoad string    `json:"bad_load,omitempty"` // instead of statements: a load of unreadable data, committed and refused by every node
 }
 type c01Input struct {
 	Reqs     []c01Req `json:"reqs"`      // the program proper
 	SnapAt   int      `json:"snap_at"`   // follower snapshots after this many requests (its restart re-applies the rest)
 	TailReqs []c01Req `json:"tail_reqs"` // sent after the leader truncated its log and the third node joined
+	Session  string   `json:"session,omitempty"` // "within-segments": session state is created and used between two snapshot points; "across-snapshot": known finding
+	GapS     int      `json:"gap_s,omitempty"`   // > 0: the long-gap scenario instead (nodes idle that many seconds between two dependent entries)
 }
 
 type c01Gen struct{ r *rand.Rand }
@@ -380,10 +383,60 @@ func (g *c01Gen) reqs(n int) []c01Req {
 	return out
 }
 
+// two requests of which the second depends on state the first leaves on the SQLite connection
+func (g *c01Gen) sessionPair(k int) (c01Req, c01Req, bool) {
+	switch g.r.Intn(3) {
+	case 0:
+		tt := fmt.Sprintf("tt%d", k)
+		return c01Req{Stmts: []c01Stmt{{SQL: "CREATE TEMP TABLE " + tt + " (v)"}, {SQL: "INSERT INTO " + tt + " VALUES (" + g.expr(1) + ")"}}},
+			c01Req{Stmts: []c01Stmt{{SQL: "INSERT INTO t(a, b) SELECT v, 'tmp' FROM " + tt}}}, false
+	case 1:
+		return c01Req{Stmts: []c01Stmt{{SQL: fmt.Sprintf("INSERT INTO u(x) VALUES (%d)", 70+k)}}},
+			c01Req{Stmts: []c01Stmt{{SQL: "INSERT INTO t(a, b) VALUES (last_insert_rowid(), changes())"}}}, false
+	default:
+		// a transaction left open by one request and committed by the next
+		return c01Req{Stmts: []c01Stmt{{SQL: "BEGIN"}, {SQL: "INSERT INTO t(a, b) VALUES ('intx', " + g.expr(1) + ")"}}},
+			c01Req{Stmts: []c01Stmt{{SQL: "INSERT INTO t(a, b) VALUES ('intx2', 1)"}, {SQL: "COMMIT"}}}, true
+	}
+}
+
+func c01Insert(seg []c01Req, at int, r c01Req) []c01Req {
+	out := append([]c01Req{}, seg[:at]...)
+	out = append(out, r)
+	return append(out, seg[at:]...)
+}
+
 func c01GenInput(r *rand.Rand) c01Input {
 	g := &c01Gen{r: r}
 	n := 4 + r.Intn(6)
-	return c01Input{Reqs: g.reqs(n), SnapAt: 1 + r.Intn(n-1), TailReqs: g.reqs(1 + r.Intn(2))}
+	snapAt := 1 + r.Intn(n-1)
+	reqs := g.reqs(n)
+	segs := [][]c01Req{reqs[:snapAt], reqs[snapAt:], g.reqs(1 + r.Intn(2))}
+	in := c01Input{}
+	// session state never crosses a snapshot point: both requests of a pair lie in the same segment
+	npairs := []int{0, 1, 1, 1, 2}[r.Intn(5)]
+	for k := 0; k < npairs; k++ {
+		a, b, adjacent := g.sessionPair(k)
+		si := r.Intn(3)
+		seg := segs[si]
+		i := r.Intn(len(seg) + 1)
+		j := i + 1
+		if !adjacent {
+			j += r.Intn(len(seg) + 1 - i)
+		}
+		seg = c01Insert(seg, i, a)
+		seg = c01Insert(seg, j, b)
+		segs[si] = seg
+		in.Session = "within-segments"
+	}
+	// a load every node refuses, somewhere after the follower's snapshot
+	if r.Intn(10) < 4 {
+		segs[1] = c01Insert(segs[1], r.Intn(len(segs[1])+1), c01Req{BadLoad: vfBadKinds[r.Intn(len(vfBadKinds))]})
+	}
+	in.Reqs = append(append([]c01Req{}, segs[0]...), segs[1]...)
+	in.SnapAt = len(segs[0])
+	in.TailReqs = segs[2]
+	return in
 }
 
 var c01Setup = []string{
@@ -545,7 +598,196 @@ func c01Run(w *vWriter, in c01Input) {
 	w.Emit(vc)
 }
 
+// The long-gap scenario: the live nodes apply an entry that leaves state on the SQLite connection, apply nothing for
+// GapS seconds, then apply an entry that uses the state; a node joining afterwards, a restart without any snapshot and
+// a peers.json recovery apply the same two entries back to back.  "Regardless of when or how fast each node applies them."
+func c01Gap(in c01Input) (vc VCase) {
+	vc = VCase{Input: in, Key: vJSON(in), Tags: []string{fmt.Sprintf("idle-gap=%ds", in.GapS)}}
+	inconcl := func(format string, a ...any) { vc.Inconcl = fmt.Sprintf(format, a...) }
+	root, err := os.MkdirTemp("", "c01gap-")
+	if err != nil {
+		inconcl("tempdir: %v", err)
+		return
+	}
+	defer os.RemoveAll(root)
+	var open []*Store
+	defer func() {
+		for _, s := range open {
+			s.NoSnapshotOnClose = true
+			s.Close(true)
+			s.ly.Close()
+		}
+	}()
+	mk := func(id string, ln net.Listener) (*Store, error) {
+		s := vfNewClusterStore(id, filepath.Join(root, id), false, ln)
+		s.SnapshotThreshold = 1 << 20 // never snapshot on its own: the later paths replay the whole log
+		if err := s.Open(); err != nil {
+			return nil, err
+		}
+		open = append(open, s)
+		return s, nil
+	}
+	s0, err := mk("n0", nil)
+	if err != nil {
+		inconcl("open n0: %v", err)
+		return
+	}
+	if err := s0.Bootstrap(NewServer(s0.ID(), s0.Addr(), true)); err != nil {
+		inconcl("bootstrap: %v", err)
+		return
+	}
+	if _, err := s0.WaitForLeader(15 * time.Second); err != nil {
+		inconcl("leader: %v", err)
+		return
+	}
+	s1, err := mk("n1", nil)
+	if err != nil {
+		inconcl("open n1: %v", err)
+		return
+	}
+	if err := s0.Join(joinRequest(s1.ID(), s1.Addr(), true)); err != nil {
+		inconcl("join n1: %v", err)
+		return
+	}
+	if err := c01WaitRaft(s1, s0.raft.LastIndex(), 15*time.Second); err != nil {
+		inconcl("%v", err)
+		return
+	}
+	var rec []c01Logged
+	written := 0
+	var last uint64
+	send := func(stmts ...string) error {
+		r := c01Req{}
+		for _, q := range stmts {
+			r.Stmts = append(r.Stmts, c01Stmt{SQL: q})
+		}
+		idx, err := c01Send(s0, r, &rec, &written)
+		if err == nil {
+			last = idx
+		}
+		return err
+	}
+	if err := send(c01Setup...); err != nil {
+		inconcl("setup: %v", err)
+		return
+	}
+	// entry that leaves session state: a TEMP table, last_insert_rowid(), changes()
+	if err := send(`CREATE TEMP TABLE g1 (v)`, `INSERT INTO g1 VALUES (41), (julianday('now'))`, `INSERT INTO t(a, b) VALUES ('before-gap', random())`); err != nil {
+		inconcl("entry 1: %v", err)
+		return
+	}
+	time.Sleep(time.Duration(in.GapS) * time.Second)
+	if err := send(`INSERT INTO t(a, b) SELECT v, last_insert_rowid() FROM g1`, `INSERT INTO t(a, b) VALUES (changes(), 'after-gap')`); err != nil {
+		inconcl("entry 2: %v", err)
+		return
+	}
+	if err := c01WaitApplied(s1, last, 15*time.Second); err != nil {
+		inconcl("%v", err)
+		return
+	}
+	paths, dumps := []string{}, []string{}
+	add := func(name string, s *Store) bool {
+		d, err := c01Dump(s)
+		if err != nil {
+			inconcl("dump %s: %v", name, err)
+			return false
+		}
+		paths, dumps = append(paths, name), append(dumps, d)
+		return true
+	}
+	if !add("leader", s0) || !add("follower-live", s1) {
+		return
+	}
+	// a node joining now gets the whole log (no snapshot exists) and applies it back to back
+	s2, err := mk("n2", nil)
+	if err != nil {
+		inconcl("open n2: %v", err)
+		return
+	}
+	if err := s0.Join(joinRequest(s2.ID(), s2.Addr(), true)); err != nil {
+		inconcl("join n2: %v", err)
+		return
+	}
+	if err := c01WaitApplied(s2, last, 20*time.Second); err != nil {
+		inconcl("%v", err)
+		return
+	}
+	if !add("late-join-replay", s2) {
+		return
+	}
+	// restart of the follower: no snapshot, the whole log is applied again back to back
+	addr1 := s1.Addr()
+	s1.NoSnapshotOnClose = true
+	if err := s1.Close(true); err != nil {
+		inconcl("close n1: %v", err)
+		return
+	}
+	cp := filepath.Join(root, "n1-copy")
+	if out, err := exec.Command("cp", "-a", filepath.Join(root, "n1"), cp).CombinedOutput(); err != nil {
+		inconcl("cp: %v %s", err, out)
+		return
+	}
+	var ln net.Listener
+	for i := 0; i < 50; i++ {
+		if ln, err = net.Listen("tcp", addr1); err == nil {
+			break
+		}
+		time.Sleep(50 * time.Millisecond)
+	}
+	if err != nil {
+		inconcl("listen: %v", err)
+		return
+	}
+	s1b, err := mk("n1", ln)
+	if err != nil {
+		inconcl("re-open n1: %v", err)
+		return
+	}
+	if err := c01WaitApplied(s1b, last, 20*time.Second); err != nil {
+		inconcl("%v", err)
+		return
+	}
+	if !add("restart-replay", s1b) {
+		return
+	}
+	// peers.json recovery of the copy: RecoverNode replays the whole log back to back
+	sr := vfNewStore("n1", cp, false, nil)
+	if err := os.WriteFile(sr.peersPath, []byte(fmt.Sprintf(`[{"id": "n1", "address": "%s"}]`, sr.ly.Addr().String())), 0644); err != nil {
+		inconcl("peers: %v", err)
+		return
+	}
+	if err := sr.Open(); err != nil {
+		inconcl("recovery open: %v", err)
+		return
+	}
+	open = append(open, sr)
+	if !add("recovered", sr) {
+		return
+	}
+	var progCoq, digests []string
+	for _, l := range rec {
+		progCoq = append(progCoq, c01StmtCoq(l))
+	}
+	for _, d := range dumps {
+		digests = append(digests, coqStr(c01Digest(d)))
+	}
+	vc.Coq = fmt.Sprintf("{| c_prog := %s; c_dumps := %s |}", coqList(progCoq), coqList(digests))
+	vc.Nontrivial = true
+	vc.Tags = append(vc.Tags, "session-state:across-idle-gap")
+	for i := 1; i < len(dumps); i++ {
+		if dumps[i] != dumps[0] {
+			vc.OracleFail = fmt.Sprintf("after the live nodes were idle for %d s between two dependent entries, %s (which applied them back to back) differs from the leader: %s", in.GapS, paths[i], c01FirstDiff(dumps[0], dumps[i]))
+			vc.Sig = "C01:diverged:" + paths[i] + ":after-idle-gap"
+			break
+		}
+	}
+	return vc
+}
+
 func c01Try(in c01Input) (vc VCase) {
+	if in.GapS > 0 {
+		return c01Gap(in)
+	}
 	vc = VCase{Input: in, Key: vJSON(in)}
 	inconcl := func(format string, a ...any) {
 		vc.Inconcl = fmt.Sprintf(format, a...)
@@ -602,6 +844,14 @@ func c01Try(in c01Input) (vc VCase) {
 	written := 0
 	var last uint64
 	send := func(r c01Req) error {
+		if r.BadLoad != "" {
+			idx, err := vfExec(s0, vfStep{Kind: "badload", Bad: r.BadLoad})
+			if err == nil {
+				last = idx
+				vc.Tags = append(vc.Tags, "rejected-load")
+			}
+			return err
+		}
 		idx, err := c01Send(s0, r, &rec, &written)
 		if err == nil {
 			last = idx
@@ -769,7 +1019,7 @@ func c01Try(in c01Input) (vc VCase) {
 				asciiOK = false
 			}
 		}
-		progCoq = append(progCoq, fmt.Sprintf("{| s_text := %s; s_tree := %s; s_logged := %s |}", coqStr(l.sent), c01OptTree(c01Parse(l.sent)), c01OptTree(c01Parse(l.logged))))
+		progCoq = append(progCoq, c01StmtCoq(l))
 	}
 	digests := make([]string, len(dumps))
 	for i, d := range dumps {
@@ -779,6 +1029,9 @@ func c01Try(in c01Input) (vc VCase) {
 		vc.Coq = fmt.Sprintf("{| c_prog := %s; c_dumps := %s |}", coqList(progCoq), coqList(digests))
 	}
 	vc.Nontrivial = rewritten > 0 && written > 0
+	if in.Session != "" {
+		vc.Tags = append(vc.Tags, "session-state:"+in.Session)
+	}
 	vc.Tags = append(vc.Tags, fmt.Sprintf("requests=%d", len(in.Reqs)+len(in.TailReqs)), fmt.Sprintf("snapshot-installed=%v", installed > 0), fmt.Sprintf("file-reused-on-restart=%v", fastTaken))
 	if rewritten > 0 {
 		vc.Tags = append(vc.Tags, "has-rewritten-statement")
@@ -787,10 +1040,20 @@ func c01Try(in c01Input) (vc VCase) {
 		if dumps[i] != dumps[0] {
 			vc.OracleFail = fmt.Sprintf("%s differs from the leader: %s", paths[i], c01FirstDiff(dumps[0], dumps[i]))
 			vc.Sig = "C01:diverged:" + paths[i]
+			if in.Session == "across-snapshot" {
+				// state on the SQLite connection (TEMP tables, last_insert_rowid(), an open transaction) is not part of a
+				// snapshot: a path that starts from a snapshot taken between its creation and its use cannot have it
+				vc.Sig = "C01:session-state-not-in-snapshot"
+				vc.Coq = "" // outside the model: there restore (snapshot d) = d is a premise
+			}
 			break
 		}
 	}
 	return vc
+}
+
+func c01StmtCoq(l c01Logged) string {
+	return fmt.Sprintf("{| s_text := %s; s_tree := %s; s_logged := %s; s_same := %s |}", coqStr(l.sent), c01OptTree(c01Parse(l.sent)), c01OptTree(c01Parse(l.logged)), coqBool(l.sent == l.logged))
 }
 
 func fileExistsC01(p string) bool { _, err := os.Stat(p); return err == nil }
@@ -828,7 +1091,26 @@ func TestVerif_C01(t *testing.T) {
 		{Stmts: []c01Stmt{{SQL: `WITH k(v) AS (SELECT random()) INSERT INTO t(a, b) SELECT v, time() FROM k`}}},
 	}, TailReqs: []c01Req{{Stmts: []c01Stmt{{SQL: `INSERT INTO t(a, b) VALUES (strftime('%J'), "random"())`}}}}}
 	ins = append(ins, corpus)
-	n := vN(9, 200)
+	// session state created before a snapshot point and used after it (known finding: not part of a snapshot)
+	ins = append(ins, c01Input{SnapAt: 1, Session: "across-snapshot", Reqs: []c01Req{
+		{Stmts: []c01Stmt{{SQL: `CREATE TEMP TABLE tt0 (v)`}, {SQL: `INSERT INTO tt0 VALUES (7)`}, {SQL: `INSERT INTO u(x) VALUES (77)`}}},
+		{Stmts: []c01Stmt{{SQL: `INSERT INTO t(a, b) SELECT v, last_insert_rowid() FROM tt0`}}},
+	}, TailReqs: []c01Req{{Stmts: []c01Stmt{{SQL: `INSERT INTO t(a, b) VALUES ('tail', 1)`}}}}})
+	// the long-gap scenario runs beside everything else
+	gaps := []int{62}
+	if vTier() == "thorough" {
+		gaps = []int{35, 65, 130}
+	}
+	var gwg sync.WaitGroup
+	for _, gp := range gaps {
+		gwg.Add(1)
+		go func(gp int) {
+			defer gwg.Done()
+			c01Run(w, c01Input{GapS: gp})
+		}(gp)
+	}
+	defer gwg.Wait()
+	n := vN(8, 200)
 	for i := 0; i < n; i++ {
 		ins = append(ins, c01GenInput(rng))
 	}
